@@ -1045,6 +1045,9 @@ def _split_model(ctx, s, sep, maxsplit):
 
 def _parser_setup(reg, ex):
     ex.split_handler = _split_model
+    # every query of these harnesses on the unchanged code is decided in milliseconds; short limits keep modified code (kill matrix) from stalling
+    ex.branch_timeout_ms = 400
+    ex.incremental_timeout_ms = 200
     reg.stubs[URI + ':decode'] = _decode_stub
 
 
